@@ -457,7 +457,7 @@ def pfieldOf (s : String) : Except String PField :=
 def classDefErr (fs : List PField) : Option String :=
   fs.findSome? fun f =>
     match f.ann with
-    | some a => if f.declared.any (fun d => !genAcc a.cls d) then some ("classdef reject dtype tensor=" ++ showName f.name) else none
+    | some a => if classDefRejects genAcc a.cls f.declared then some ("classdef reject dtype tensor=" ++ showName f.name) else none
     | none => none
 
 def runValidation (fs : List PField) (vals : List (Name × Value)) : String × Option CState :=
